@@ -181,6 +181,9 @@ def main():
             broken.append(f"{ex.name}: nondeterministic observations on {agg['nondet'][:1]}")
         if n_nt < ex.floor:
             broken.append(f"{ex.name}: only {n_nt} distinct non-trivial cases (floor {ex.floor}) - vacuous")
+        for key, need in ex.require.items():
+            if st.get(key, 0) < need:
+                broken.append(f"{ex.name}: stat {key}={st.get(key, 0)} below the required {need} - vacuous")
         for v in agg["v"]:
             v = dict(v, explorer=ex.name, property=pid, tier=a.tier, seed=seed)
             k = match_known(pid, v, known)
